@@ -140,6 +140,8 @@ def run(ctx):
             rep.check(r2, bool(fs) and all(out_of_range(f_) for f_ in fs), 'PROG_MISMATCH(2,4)', 'emitted only on paths with version < 2 or version > 4 (%d path states)' % len(fs), it['loc'])
         elif c == [0, 0, 0, 0]:
             rep.check(r2, bool(fs) and all(in_range(f_) and holds(f_, 'procedure', '==', 0) for f_ in fs), 'SUCCESS-for-NULL', 'emitted only with version in 2..=4 and procedure == 0 (%d path states)' % len(fs), it['loc'])
+        elif c is not None and len(c) == 4 and fs and all(in_range(f_) and holds(f_, 'procedure', '==', 0) for f_ in fs):
+            rep.bad(r2, 'SUCCESS-for-NULL:word', 'the NULL procedure is answered with the word %s (required: 0 0 0 0, SUCCESS)' % c, it['loc'])
     for callee, want_prog in [(R + 'build_repl_portmap', True), (R + 'build_repl_unknownprog', False)]:
         cs = br.calls('^' + re.escape(callee) + '$')
         ok = len(cs) == 1
@@ -172,10 +174,9 @@ def run(ctx):
     for it in pitems:
         c = arr_consts(it['value'])
         fs = facts_at(pstates, it['block'])
-        if c is not None and len(c) == 4 and c[:3] == [0, 0, 0] and c[3] not in (0, 1) and not it['in_loop'] and fs and \
-                all(holds(f_, 'procedure', '!=', 3) and holds(f_, 'procedure', '!=', 4) for f_ in fs):
+        if c is not None and not it['in_loop'] and fs and all(holds(f_, 'procedure', '!=', 3) and holds(f_, 'procedure', '!=', 4) for f_ in fs):
             # the accept state of the arm for every other procedure: PROC_UNAVAIL is 3 (RFC 5531; 5 would be SYSTEM_ERR)
-            rep.check(r2, c == [0, 0, 0, 3], 'PROC_UNAVAIL', 'other procedures are answered with accept state %d (required: 3, PROC_UNAVAIL)' % c[3], it['loc'])
+            rep.check(r2, c == [0, 0, 0, 3], 'PROC_UNAVAIL', 'other procedures are answered with the word %s (required: 0 0 0 3, PROC_UNAVAIL)' % c, it['loc'])
         elif c == [0, 0, 0, 0]:
             ok = bool(fs) and all(holds(f_, 'procedure', '==', 3) or holds(f_, 'procedure', '==', 4) for f_ in fs)
             rep.check(r2, ok, 'portmap-success@proc%s' % ('3' if fs and holds(fs[0], 'procedure', '==', 3) else '4'), 'accept state 0 only for procedure 3 / 4', it['loc'])
@@ -505,5 +506,7 @@ def run(ctx):
     okv, detv, locv = rpc_verifier_never_awaited(F)
     rep.check(r6, okv, 'verifier-length-never-awaited', 'a call is complete when its verifier-length word is (calls with any verifier are answered): ' + detv, locv)
     dispatch_sound(ctx, 'C16', 'a call reaches the RPC responders')
+    table_never_shrinks(ctx, 'C16')
+    no_abort_in(ctx, 'C16', r'proto::rpc::', 'answering ONC-RPC')
 
 
